@@ -103,7 +103,7 @@ func judgeCallC29(r *mon.Run, c *call) {
 }
 
 func checkC29(r *mon.Run) {
-	r.Rule = "for every ordered AS pair of generated topologies (simtopo multi-ISD + chains; segments from real beaconing, " +
+	r.Rule = "for every ordered AS pair of generated topologies (simtopo multi-ISD + chains + forks = two short branches below a stem of up to 58 ASes, so that short shortcut/peering paths lie inside segments whose lengths exceed 64 together; segments from real beaconing, " +
 		"plus variants: per-hop expiries, changed MTUs, re-registered duplicates, one-sided peering announcements, all " +
 		"segments of the topology supplied) a brute-force enumeration lists all joins of ≤1 up × ≤1 core × ≤1 down segment " +
 		"(common AS incl. shortcuts and on-path src/dst, peering links announced by both segments); every distinct interface " +
@@ -128,5 +128,6 @@ func checkC29(r *mon.Run) {
 		"UD/shortcut/hops=3-4/multi", "UD/peer/hops=3-4/multi", "UD/peer-direct/hops=2/multi", "UD/core/hops=3-4/multi",
 		"UCD/hops=5-7/multi", "UC/hops=3-4/multi", "CD/hops=3-4/multi", "C/hops=2/multi",
 		"U/onpath/hops=2/multi", "D/onpath/hops=2/multi", "U/onpath/hops=17+/chain", "D/onpath/hops=17+/chain",
+		"UD/shortcut/hops=3-4/fork", "UD/peer/hops=3-4/fork",
 	)
 }
